@@ -182,6 +182,12 @@ fn main() {
             if cfg.batches_only && !matches!(kind, Kind::AssignMany { .. }) {
                 continue;
             }
+            // debugging aid: MZV_C04_ONLY=<substring of the entry label> restricts the run
+            if let Ok(only) = std::env::var("MZV_C04_ONLY") {
+                if !kind.label().contains(&only) {
+                    continue;
+                }
+            }
             let label = kind.label();
             let mut rng = ctx.rng(&format!("inputs-{label}"));
             let mut inputs = cat::inputs_for(&kind, cfg.deep, &mut rng);
@@ -216,6 +222,8 @@ fn main() {
             if matches!(kind, Kind::MapGet | Kind::MapInsert) {
                 // large circuits (k >= 13): keep the search affordable
                 opts.ars = Some(ArsBudget { restarts: if cfg.deep { 16 } else { 6 }, nodes_per_restart: 2000, max_changed: 24 });
+                opts.seed_cells = if cfg.deep { 48 } else { 12 };
+                opts.seed_inputs = 1;
             }
             if ci == 0 {
                 entries_json.push(json!({"entry": label, "trait": kind.trait_name(), "signature_name": kind.name(), "inputs": inputs.len()}));
@@ -235,7 +243,8 @@ fn main() {
         }
     }
     let planned_inputs: usize = jobs.iter().map(|j| j.inputs.len()).sum();
-    if replay.is_none() {
+    let restricted = std::env::var("MZV_C04_ONLY").is_ok();
+    if replay.is_none() && !restricted {
         rep.min_nontrivial = (planned_inputs / 2) as u64;
     }
 
@@ -308,7 +317,7 @@ fn main() {
     // per-name counters of the driver are redundant with per_operation: keep the evidence small
     rep.counters.retain(|k, _| !(k.ends_with(".honest_runs") || k.ends_with(".edits") || k.ends_with(".ars_targets") || k.ends_with(".ars_nodes")));
     for (t, set) in &per_trait {
-        if honest_per_trait.get(t).copied().unwrap_or(0) == 0 && replay.is_none() {
+        if honest_per_trait.get(t).copied().unwrap_or(0) == 0 && replay.is_none() && !restricted {
             rep.inconclusive(&format!("trait {t}: {} planned entries, no honest run executed", set.len()));
             rep.min_nontrivial = u64::MAX;
         }
